@@ -79,14 +79,15 @@ type Obs struct {
 	ReplyAt         []int // for each reply: input octets consumed when its first line was written
 	ParseErr        error
 	Trace           []Event
-	Closed          bool   // the server closed the connection
-	Consumed        int    // input octets taken by the server
-	Taken           int    // input octets taken when the server closed the connection
-	Err             error  // return value of the connection handler
-	Log             string // Server.ErrorLog output
-	State           string // Conn.VerifState() when the script ran dry ("" if it never did)
-	Panic           string // a panic that escaped the handler (never expected)
-	Leak            string // synctest complaint: goroutines of the connection still blocked after everything settled
+	Closed          bool     // the server closed the connection
+	Consumed        int      // input octets taken by the server
+	Taken           int      // input octets taken when the server closed the connection
+	Err             error    // return value of the connection handler
+	Log             string   // Server.ErrorLog output
+	State           string   // Conn.VerifState() when the script ran dry ("" if it never did)
+	Panic           string   // a panic that escaped the handler (never expected)
+	Anomalies       []string // from the recording backend
+	Leak            string   // synctest complaint: goroutines of the connection still blocked after everything settled
 	ReadsAfterClose int
 }
 
@@ -106,6 +107,9 @@ func RunS(cfg Config, be *Backend, segs [][]byte, term string) *Obs {
 		o.Err = srv.VerifServeConn(sc, func(c *smtp.Conn) { conn = c })
 		Wait() // let delivery goroutines that are still running finish (or block for good)
 		o.Trace = be.Trace()
+		be.mu.Lock()
+		o.Anomalies = append([]string(nil), be.Anomalies...)
+		be.mu.Unlock()
 	})
 	sc.mu.Lock()
 	o.Writes = sc.Writes
@@ -172,6 +176,9 @@ func (o *Obs) Sanity(prefix, desc string) *Finding {
 	}
 	if o.Leak != "" {
 		return F(prefix+"-goroutine-leak", "%s: goroutines serving the connection never finished: %s", desc, o.Leak)
+	}
+	if len(o.Anomalies) > 0 {
+		return F(prefix+"-backend-anomaly", "%s: %s", desc, o.Anomalies[0])
 	}
 	return nil
 }
